@@ -47,6 +47,10 @@ def handle (op : String) (args : List String) : String :=
       | .ok (l', fixed) => s!"ok fixed={if fixed then 1 else 0} " ++ showLang l'
   | "lookup", [h] => "ok " ++ hxo (lookupLanguage (Driver.unhexChars h))
   | "territory", [h] => "ok " ++ hxo (lookupTerritory (Driver.unhexChars h))
+  | "almost", [a, b] =>
+    match parseLanguage (Driver.unhexChars a), parseLanguage (Driver.unhexChars b) with
+    | some x, some y => s!"ok {if isAlmostEqual x y then 1 else 0} {if x == y then 1 else 0}"
+    | _, _ => "err LanguageSyntaxError"
   | "munch", [h] => "ok " ++ hx (munchName (Driver.unhexChars h))
   | "name-raw", [h] => showLangE (getLanguageForName (munchName (Driver.unhexChars h)))
   | "name", [h] => showLangE (getLanguageForName (Driver.unhexChars h))
